@@ -105,6 +105,15 @@ CHECKS = {
         "note": "in-tick order hooks (SimInlineHook) are excluded from clause (2): they regroup a batch through temporary maps that are legitimately dropped when empty.",
         "technique": "who-may-call rule on resolved VecDeque methods + forward may-taint (ownership) dataflow + must-pass-through / loop-exit analysis on rustc MIR",
     },
+    "C37": {
+        "text": "Partial, static: a necessary condition for completeness of exhaustive simulation - the exhaustive driver can only enumerate the domains the hooks offer it. For all 15 usize ranges "
+                "handed to the bolero generator in the 18 simulator hook impls, both bounds are reconstructed from MIR def-use provenance and must be: upper = len() of a collection (count or "
+                "exclusive index bound), len-1 as an inclusive last index, a Fisher-Yates loop variable, or one reviewed stored length; lower = 0, the forced-progress 0|1, an earlier draw or a "
+                "loop variable - no clamping or other arithmetic. NOT decided: that bolero enumerates each offered domain completely, that every order of ready ticks/observations is offered, "
+                "and that the NoOrder min_index pruning only removes intra-batch permutations.",
+        "note": "an unrecognised rewrite of a bound is reported (fail closed) with the reconstructed expression.",
+        "technique": "def-use provenance reconstruction of generator domains on rustc MIR, matched against an enumerated set of accepted bound forms",
+    },
     "C38": {
         "text": "Claimed as an absence argument: a replay with the same decision input can only diverge through a source of nondeterminism other than the recorded decisions. "
                 "Every non-test body of hydro_lang::sim::{runtime,compiled} (type-checked MIR) is scanned: no iteration in hash order over a RandomState HashMap/HashSet/"
